@@ -729,6 +729,251 @@ def translate_links(repo):
             "Definition g_links_remove (t : table) (other : link) (strong : N) : table :=\n%s.\n" % (path, ins, rem))
 
 
+# ---------------------------------------------------------------------------------------------------
+# rc.rs: the functions that read the counters or create a handle: Rc::{strong_count, weak_count, clone,
+# downgrade}, Weak::{upgrade, strong_count, weak_count, clone}. Block/expression language:
+#   stmt ::= `let inner = self.inner()?;` | RECV.m(); | debug_assert!(..);
+#   expr ::= if C { blk } (else if C { blk })* else { blk } | if let Some(inner) = self.inner() { blk } else { blk }
+#          | self.inner().map_or(D, |inner| { blk }) | e (+|-|==|!=|<|>|<=|>=|&&|'||') e | !e | int | usize::MAX
+#          | None | Some(<handle>) | <handle> | RECV.m()
+#   RECV ::= inner | self.inner() | this.inner();   <handle> ::= Rc::from_inner(..) | Self::from_inner(..) | Weak { .. }
+# A Weak function yields two definitions: the attached case (in the counters monad) and the value for a
+# dangling Weak (self.inner() == None).
+HTOK = re.compile(r"\s*(?:(\d+)|(usize::MAX)|(debug_assert!\((?:[^()]|\((?:[^()]|\([^()]*\))*\))*\);)|"
+                  r"(Weak \{[^{}]*\})|((?:Rc|Self)::from_inner\([^()]*(?:\([^()]*\))?[^()]*\))|"
+                  r"([A-Za-z_][A-Za-z_0-9]*)|(\|\||&&|==|!=|<=|>=|=>|[-+!(){};.,=<>?|]))")
+
+
+def htokenize(src):
+    out, i = [], 0
+    while i < len(src):
+        if src[i:].strip() == "":
+            break
+        m = HTOK.match(src, i)
+        if not m:
+            raise Unsupported("cannot tokenize at: %r" % src[i:i + 40])
+        i = m.end()
+        if m.group(1):
+            out.append(("int", m.group(1)))
+        elif m.group(2):
+            out.append(("max", "usize::MAX"))
+        elif m.group(3):
+            continue                                  # debug_assert!: no behaviour in the translated reading
+        elif m.group(4) or m.group(5):
+            out.append(("handle", "h"))
+        elif m.group(6):
+            out.append(("id", m.group(6)))
+        else:
+            out.append(("op", m.group(7)))
+    return out
+
+
+class HP:
+    """parser producing Gallina text; `dang` collects the dangling-case value (None if not a Weak function)"""
+    def __init__(self, toks, methods):
+        self.t, self.i, self.methods = toks, 0, methods
+
+    def peek(self, k=0):
+        return self.t[self.i + k] if self.i + k < len(self.t) else ("eof", "")
+
+    def eat(self, kind=None, val=None):
+        tk = self.peek()
+        if (kind and tk[0] != kind) or (val is not None and tk[1] != val):
+            raise Unsupported("expected %s %s, found %s (token %d)" % (kind, val, tk, self.i))
+        self.i += 1
+        return tk
+
+    def at(self, *vals):
+        return all(self.peek(k)[1] == v for k, v in enumerate(vals))
+
+    def recv(self):
+        """inner | self.inner() | this.inner()  -> consumed?"""
+        if self.at("inner", "."):
+            self.eat()
+            return True
+        if (self.at("self", ".", "inner", "(", ")", ".") or self.at("this", ".", "inner", "(", ")", ".")):
+            for _ in range(5):
+                self.eat()
+            return True
+        return False
+
+    def block(self):
+        """-> (gallina of type M T, dangling value or None)"""
+        self.eat("op", "{")
+        r = self.block_body()
+        self.eat("op", "}")
+        return r
+
+    def block_body(self):
+        # statements
+        if self.at("let", "inner", "=", "self", ".", "inner", "(", ")", "?", ";"):
+            for _ in range(10):
+                self.eat()
+            g, _ = self.block_body()
+            return g, "DNone"
+        save = self.i
+        if self.recv():
+            if (self.peek() == ("op", ".") and self.peek(1)[0] == "id" and self.peek(2) == ("op", "(")
+                    and self.peek(3) == ("op", ")") and self.peek(4) == ("op", ";")):
+                self.eat()
+                name = self.eat("id")[1]
+                self.eat()
+                self.eat()
+                self.eat()
+                if name not in self.methods:
+                    raise Unsupported("unknown counter method " + name)
+                g, d = self.block_body()
+                return "bind g_%s (fun _ => %s)" % (name, g), d
+            self.i = save
+        # `if let Some(inner) = self.inner() { stmts }` without else, as a statement (Weak::clone)
+        if self.at("if", "let", "Some", "(", "inner", ")", "=", "self", ".", "inner", "(", ")"):
+            j = self.i
+            for _ in range(12):
+                self.eat()
+            g, _ = self.block()
+            if self.peek() != ("id", "else"):
+                rest, _ = self.block_body()
+                return "bind (%s) (fun _ => %s)" % (g, rest), ("DExpr", rest)
+            self.i = j
+        if self.peek() == ("op", "}"):
+            return "ret tt", None
+        g, d = self.expr()
+        if self.peek() != ("op", "}") and self.peek()[0] != "eof":
+            raise Unsupported("code after the tail expression near token %d %s" % (self.i, self.peek()))
+        return g, d
+
+    def expr(self):
+        return self.binop(0)
+
+    LEVELS = [["||"], ["&&"], ["==", "!=", "<", ">", "<=", ">="], ["+", "-"]]
+
+    def binop(self, lvl):
+        if lvl == len(self.LEVELS):
+            return self.unary()
+        g, d = self.binop(lvl + 1)
+        while self.peek()[0] == "op" and self.peek()[1] in self.LEVELS[lvl]:
+            op = self.eat()[1]
+            r, _ = self.binop(lvl + 1)
+            if op == "||":
+                g = "(bind %s (fun t => if t then ret true else %s))" % (g, r)
+            elif op == "&&":
+                g = "(bind %s (fun t => if t then %s else ret false))" % (g, r)
+            else:
+                f = {"==": "ret (N.eqb a b)", "!=": "ret (negb (N.eqb a b))", "<": "ret (N.ltb a b)", ">": "ret (N.ltb b a)",
+                     "<=": "ret (N.leb a b)", ">=": "ret (N.leb b a)", "+": "add_chk a b", "-": "sub_chk a b"}[op]
+                g = "(bind %s (fun a => bind %s (fun b => %s)))" % (g, r, f)
+        return g, d
+
+    def unary(self):
+        if self.peek() == ("op", "!"):
+            self.eat()
+            g, d = self.unary()
+            return "(bind %s (fun t => ret (negb t)))" % g, d
+        return self.atom()
+
+    def atom(self):
+        tk = self.peek()
+        if tk[0] == "int":
+            self.eat()
+            return "(ret %s%%N)" % tk[1], None
+        if tk[0] == "max":
+            self.eat()
+            return "(ret MAXU)", None
+        if tk[0] == "handle":
+            self.eat()
+            return "(ret tt)", None
+        if tk == ("id", "None"):
+            self.eat()
+            return "(ret false)", None
+        if tk == ("id", "Some"):
+            self.eat()
+            self.eat("op", "(")
+            self.eat("handle")
+            self.eat("op", ")")
+            return "(ret true)", None
+        if tk == ("op", "("):
+            self.eat()
+            g, d = self.expr()
+            self.eat("op", ")")
+            return g, d
+        if tk == ("id", "if"):
+            self.eat()
+            if self.at("let", "Some", "(", "inner", ")", "=", "self", ".", "inner", "(", ")"):
+                for _ in range(11):
+                    self.eat()
+                g, _ = self.block()
+                self.eat("id", "else")
+                gd, _ = self.block()
+                return g, ("DExpr", gd)
+            c, _ = self.expr()
+            th, _ = self.block()
+            self.eat("id", "else")
+            if self.peek() == ("id", "if"):
+                el, _ = self.atom()
+            else:
+                el, _ = self.block()
+            return "(bind %s (fun c => if c then %s else %s))" % (c, th, el), None
+        if self.at("self", ".", "inner", "(", ")", ".", "map_or", "("):
+            for _ in range(8):
+                self.eat()
+            dflt, _ = self.expr()
+            self.eat("op", ",")
+            self.eat("op", "|")
+            self.eat("id", "inner")
+            self.eat("op", "|")
+            g, _ = self.block()
+            self.eat("op", ")")
+            return g, ("DExpr", dflt)
+        if self.recv():
+            self.eat("op", ".")
+            name = self.eat("id")[1]
+            self.eat("op", "(")
+            self.eat("op", ")")
+            if name not in self.methods:
+                raise Unsupported("unknown counter method " + name)
+            return "g_%s" % name, None
+        raise Unsupported("unexpected token %s at %d" % (tk, self.i))
+
+
+HANDLE_FNS = [("rc_weak_count", r"pub fn weak_count\(this: &Self\) -> usize \{", "N", False),
+              ("rc_strong_count", r"pub fn strong_count\(this: &Self\) -> usize \{", "N", False),
+              ("rc_clone", r"fn clone\(&self\) -> Rc<T> \{", "unit", False),
+              ("rc_downgrade", r"pub fn downgrade\(this: &Self\) -> Weak<T> \{", "unit", False),
+              ("weak_upgrade", r"pub fn upgrade\(&self\) -> Option<Rc<T>> \{", "bool", True),
+              ("weak_strong_count", r"pub fn strong_count\(&self\) -> usize \{", "N", True),
+              ("weak_weak_count", r"pub fn weak_count\(&self\) -> usize \{", "N", True),
+              ("weak_clone", r"fn clone\(&self\) -> Weak<T> \{", "unit", True)]
+
+
+def translate_handles(repo):
+    path = repo + "/src/rc.rs"
+    src = re.sub(r"//[^\n]*", "", open(path).read())
+    src = re.sub(r"#\[cfg\(cactusref_verif\)\]\s*[^;]*;", "", src)
+    _, methods = translate(repo)
+    text = ("(* GENERATED by tools/rs2v.py from %s (count observers, clone, downgrade, upgrade) -- do not edit. *)\n"
+            "From Coq Require Import NArith Bool.\nFrom Gen Require Import Counters.\nLocal Open Scope N_scope.\n\n" % path)
+    for name, hdr, ty, is_weak in HANDLE_FNS:
+        body = " ".join(_fn_body(src, hdr).split())
+        p = HP(htokenize("{ " + body + " }"), set(methods))
+        g, d = p.block()
+        if p.peek()[0] != "eof":
+            raise Unsupported("trailing tokens in " + name)
+        # `if let Some(inner) = self.inner() { inner.m(); }` without else (Weak::clone): statement form
+        text += "Definition g_%s : M %s :=\n  %s.\n" % (name, ty, g)
+        if is_weak:
+            if d is None:
+                raise Unsupported("%s does not handle the dangling Weak" % name)
+            if d == "DNone":
+                dv = "false" if ty == "bool" else None
+                if dv is None:
+                    raise Unsupported("`?` in a function that does not return an Option: " + name)
+                text += "Definition g_%s_dangling : M %s := ret %s.\n" % (name, ty, dv)
+            else:
+                text += "Definition g_%s_dangling : M %s :=\n  %s.\n" % (name, ty, d[1])
+        text += "\n"
+    return text
+
+
 if __name__ == "__main__":
     # rs2v.py <repo> <outdir> <counters|adopt>   (no outdir: print)
     import os
@@ -746,8 +991,10 @@ if __name__ == "__main__":
             text, name = translate_drop(repo), "DropGen.v"
         elif part == "effects":
             text, name = translate_effects(repo), "EffectsGen.v"
-        else:
+        elif part == "links":
             text, name = translate_links(repo), "LinksGen.v"
+        else:
+            text, name = translate_handles(repo), "HandlesGen.v"
     except (Unsupported, ValueError, IndexError) as e:
         print("rs2v (%s): outside the translated subset: %s" % (part, e), file=sys.stderr)
         sys.exit(2)
